@@ -38,4 +38,8 @@ let () =
   reg "fco2" (fun t ->
     let c = rf t in let r = rf t in let bs = rf t in let bf = rf t in let fs = rf t in let wp = rf t in
     wf (fco2 n c r bs bf fs wp));
+  reg "root_zone_water" (fun t ->
+    let p = rprof t in let zroot = rf t in let th = rfl t in let ztop = rf t in let zmin = rf t in let aer = rf t in
+    wopt (fun r -> wf r.rz_WrAct; wf r.rz_Dr_Zt; wf r.rz_Dr_Rz; wf r.rz_TAW_Zt; wf r.rz_TAW_Rz; wf r.rz_Act; wf r.rz_S;
+                   wf r.rz_FC; wf r.rz_WP; wf r.rz_Dry; wf r.rz_Aer) (root_zone_water n p zroot th ztop zmin aer));
   main ()
